@@ -136,7 +136,8 @@ func Delete(config *Config) func(db *gorm.DB) {
 					db.Statement.AddClause(clause.Where{Exprs: []clause.Expression{clause.IN{Column: column, Values: values}}})
 				}
 
-				if db.Statement.ReflectValue.CanAddr() && db.Statement.Dest != db.Statement.Model && db.Statement.Model != nil {
+				// (a value handed to Delete by value is not addressable: the model is another value when it was given as a pointer)
+				if m := db.Statement.Model; m != nil && (db.Statement.ReflectValue.CanAddr() || reflect.ValueOf(m).Kind() == reflect.Ptr) && db.Statement.Dest != m {
 					_, queryValues = schema.GetIdentityFieldValuesMap(db.Statement.Context, reflect.ValueOf(db.Statement.Model), db.Statement.Schema.PrimaryFields)
 					column, values = schema.ToQueryValues(db.Statement.Table, db.Statement.Schema.PrimaryFieldDBNames, queryValues)
 
